@@ -20,6 +20,7 @@ def Fires (m : Mon) (p o : Obs) (e : Ev) : Clause → Prop
   | .c01Panic n => FTok.call n .panic ∈ o.fins
   | .c01Blocked n => o.done = true ∧ 1 ≤ n ∧ n ≤ m.ncalls ∧ finCall o.fins n = none ∧ o.callParked n = false
   | .c01Late n r => n ∈ m.startedLate ∧ finCall o.fins n = some r ∧ r ≠ .closed ∧ ¬ (r = .ctx ∧ n ∈ m.ctxd)
+  | .c01RegAfterRx oc => m.rxSeen = true ∧ oc = o.oc ∧ o.oc ≠ []
   | .c02Twice r => ∃ q, m.reqs[r]? = some q ∧ (1 < q.okWrites ∨ 1 < q.p1count)
   | .c02NotifAnswered r => ∃ q, m.reqs[r]? = some q ∧ (q.isNotif = true ∨ q.isCancel = true) ∧ 0 < q.w1count
   | .c03BeforeSync j i => PTok.h j ∈ o.parked ∧ PTok.h j ∉ p.parked ∧ ∃ qj qi, m.reqs[j]? = some qj ∧
@@ -102,6 +103,15 @@ theorem chkLate_fires (h : chkLate m o = some c) : Fires m p o e c := by
       simp only [Bool.or_eq_true, decide_eq_true_eq, Bool.and_eq_true, List.contains_iff_mem, not_or] at hc
       exact ⟨hn, hr, hc.1, hc.2⟩
   · cases hf
+
+theorem chkRegAfterRx_fires (h : chkRegAfterRx m o = some c) : Fires m p o e c := by
+  unfold chkRegAfterRx at h
+  split at h
+  · cases h
+    rename_i hc
+    simp only [Bool.and_eq_true, Bool.not_eq_true', List.isEmpty_eq_false_iff] at hc
+    exact ⟨hc.1, rfl, hc.2⟩
+  · cases h
 
 theorem chkAnswer_fires (h : chkAnswer m = some c) : Fires m p o e c := by
   obtain ⟨q, r, hq, hf⟩ := zipIdx_findSome h
@@ -256,6 +266,8 @@ theorem chkAll_fires (h : chkAll m p o e = some c) : Fires m p o e c := by
   · exact chkBlocked_fires h
   rcases orElse_some h with h | h
   · exact chkLate_fires h
+  rcases orElse_some h with h | h
+  · exact chkRegAfterRx_fires h
   rcases orElse_some h with h | h
   · exact chkAnswer_fires h
   rcases orElse_some h with h | h
@@ -489,6 +501,21 @@ theorem sound_c01Late (tr : Trace) (l : Label) (o : Obs) (n : Nat) (r : RTok)
   rcases this with h5 | ⟨h5, k, _, hk⟩
   · exact h3 h5
   · exact h4 ⟨h5, (hm.ctxd _).mpr ⟨k, hk⟩⟩
+
+/-- Once the reader has failed (its exit section RX ran) no outgoing call is registered any more:
+a registered call waits for a response, and nothing can read one — "completes … with an error once
+the connection breaks", "a call started after the connection broke fails at once". -/
+def P_c01RegAfterRx (tr : Trace) : Prop :=
+  ∀ k, k < tr.length → (∃ t, t ≤ k ∧ evAt tr t = some .rx) → (obsAt tr k).oc = []
+
+theorem sound_c01RegAfterRx (tr : Trace) (l : Label) (o : Obs) (oc : List Nat)
+    (h : (monStepT (monAfter {} tr) l o).2 = some (.c01RegAfterRx oc)) : ¬ P_c01RegAfterRx (tr ++ [(l, o)]) := by
+  obtain ⟨m, hm, h1, _, h3⟩ := fires_of_step h
+  intro hP
+  obtain ⟨i, hi⟩ := hm.rx.mp h1
+  have := hP tr.length (len_lt_snoc _ _) ⟨i, evAt_snoc_le hi, hi⟩
+  rw [obsAt_snoc_len] at this
+  exact h3 this
 
 /-! ## C02 — each request with an id receives exactly one response; notifications never receive one -/
 
